@@ -134,7 +134,522 @@ def run_C16(res, tier, seed, t_end, bad):
         Cp.run_campaign(res, 'C16', plan, budget(tier, 25, 250), seed, PROPS['C16']['scope'], deadline=t_end)
 
 
-RUNNERS = {'C16': run_C16}
+def generic(prop, plan_q, plan_t, n_q, n_t, observers=(), versions=(6, 7), pre=None):
+    def fn(res, tier, seed, t_end, bad):
+        if pre:
+            pre(res, tier, seed, t_end, bad)
+        plan = plan_q if tier == 'quick' else plan_t
+        Cp.run_campaign(res, prop, plan, budget(tier, n_q, n_t), seed, PROPS[prop]['scope'], observers, versions, deadline=t_end)
+    return fn
+
+
+TRACK = (Mn.mon_track_queue,)
+OBSERVERS = {
+    'C03': (Mn.mon_zset_inv,), 'C04': (Mn.mon_replies,), 'C06': TRACK + (Mn.mon_watch,), 'C08': (Mn.mon_error_nochange,),
+    'C09': (Mn.mon_views, Mn.mon_no_side_effect_keys), 'C10': TRACK + (Mn.mon_pubsub,), 'C13': (Mn.mon_db_frame,),
+}
+
+
+# ---- C04: three streams -------------------------------------------------------------------
+def run_C04(res, tier, seed, t_end, bad):
+    obs = OBSERVERS['C04']
+    allf = [f for f in gen.FAMILY]
+    Cp.run_campaign(res, 'C04', Cp.plan_single(allf, 50, mutate=0.3), budget(tier, 40, 600), seed, None, obs, deadline=t_end)
+    Cp.run_campaign(res, 'C04', Cp.plan_multi(['tx', 'pubsub', 'str', 'list', 'set', 'zset', 'hash', 'server', 'scan'], 60, mutate=0.2),
+                    budget(tier, 25, 400), seed + 1, None, obs, deadline=t_end)
+    Cp.run_campaign(res, 'C04', Cp.plan_chunked(['str', 'list', 'tx', 'hash', 'key', 'pubsub']), budget(tier, 60, 1500), seed + 2, None, obs,
+                    deadline=t_end)
+    parser_function_level(res, tier, seed)
+
+
+def parser_function_level(res, tier, seed):
+    """the model's parser against the implementation's generator on arbitrary argument bytes and arbitrary chunkings"""
+    rng = random.Random(seed * 31 + 4)
+    m = corr.get_model(7)
+    from model import hx
+    for i in range(budget(tier, 150, 3000)):
+        reqs = [[bytes(rng.choice([rng.randrange(256), 13, 10, 0, 36, 42]) for _ in range(rng.choice([0, 1, 2, 5, 30])))
+                 for _ in range(rng.randint(0, 5))] for _ in range(rng.randint(1, 4))]
+        stream = b''.join(corr.encode_request(r) for r in reqs)
+        cutpos = rng.randint(0, len(stream))
+        prefix = stream[:cutpos]
+        line = m.ask('encreq %s' % hx(prefix))
+        body = line[2:]
+        parsed_txt, _, rest_txt = body.partition(' | ')
+        parsed = [([] if r == '-' else [bytes.fromhex(f) if f != '_' else b'' for f in r.split(',')]) for r in parsed_txt.split(';')] if parsed_txt else []
+        # implementation: feed the prefix to a real socket in random chunks, record what _process_command receives
+        im = I.Impl(7, seed)
+        got = []
+        sock = im.Sock(im.srv)
+        sock._process_command = lambda fields: got.append(list(fields))
+        k = rng.randint(0, min(6, len(prefix)))
+        cuts = sorted(rng.sample(range(len(prefix) + 1), k))
+        for a, b in zip([0] + cuts, cuts + [len(prefix)]):
+            if b > a:
+                sock.sendall(prefix[a:b])
+        res.evaluations += 1
+        res.cells.add(('parser', len(reqs), min(len(got), 4), cutpos == len(stream)))
+        if got != parsed:
+            res.findings.append({'kind': 'parser', 'verdict': 'violation', 'stream': prefix.hex(), 'impl': repr(got), 'model': repr(parsed),
+                                 'what': 'requests extracted from the byte stream differ'})
+            return
+        complete = [r for r in reqs]
+        if cutpos == len(stream) and got != complete:
+            res.findings.append({'kind': 'parser', 'verdict': 'violation', 'stream': prefix.hex(), 'impl': repr(got),
+                                 'what': 'complete stream not parsed back to the encoded requests (binary safety)'})
+            return
+
+
+# ---- C07: expiry ---------------------------------------------------------------------------
+def plan_ttl(length):
+    base = Cp.plan_single(['ttl', 'str', 'key', 'list', 'hash', 'set', 'zset', 'server'], 0)
+    ttl_cmds = gen.FAMILY['ttl'] + ['set', 'setex', 'psetex', 'getset', 'append', 'incr', 'lpush', 'sadd', 'rename', 'move', 'persist', 'restore',
+                                    'dump', 'mset', 'sunionstore', 'sort', 'multi', 'exec', 'select', 'ttl', 'pttl', 'get', 'exists', 'type']
+    others = sorted(set(sum([gen.FAMILY[f] for f in ('str', 'key', 'list', 'hash', 'set', 'zset', 'scan')], [])))
+
+    def plan(s, rng):
+        yield from base(s, rng)
+        g = Cp.make_gen(s, rng)
+        for _ in range(length):
+            r = rng.random()
+            if r < 0.18:
+                # land just before / just after an outstanding deadline
+                st = s.impl.snapshot_struct()
+                ds = sorted({e for ents in st['dbs'].values() for k, v, e in ents if e is not None and e > st['now']})
+                if ds and rng.random() < 0.8:
+                    d = rng.choice(ds)
+                    now = I.BASE + s.impl.clock.adv + 2 * s.impl.clock.n
+                    ms = (d - now) // 10000 + rng.choice([-2, -1, 0, 1, 2])
+                    if ms > 0:
+                        yield ('adv', ms)
+                        continue
+                yield ('adv', rng.choice([1, 999, 1000, 1001, 1500, 10000]))
+            else:
+                name = rng.choice(ttl_cmds) if rng.random() < 0.7 else rng.choice(others)
+                yield ('cmd', 1, g.command(name))
+    return plan
+
+
+def twin_expired_deleted(res, tier, seed, t_end):
+    """metamorphic monitor on the implementation alone: command c after a key's deadline == c after DEL of that key"""
+    rng = random.Random(seed * 131 + 7)
+    names = [n for n in gen.ALL_MODELLED if n not in gen.FAMILY['pubsub'] + gen.FAMILY['tx'] + ['randomkey', 'spop', 'srandmember', 'time',
+                                                                                             'lastsave', 'save', 'bgsave', 'sort']]
+    n_pairs = budget(tier, 400, 12000)
+    done = 0
+    while done < n_pairs and time.time() < t_end:
+        ver = rng.choice([6, 7])
+        key = rng.choice(gen.ALLKEYS)
+        setup = [list(f) for f in gen.SEED_COMMANDS]
+        ttl_ms = rng.choice([1, 10, 1500])
+        setup.append([b'pexpire', key, str(ttl_ms).encode()])
+        g = gen.Gen(rng, now_ticks=lambda: I.BASE)
+        g.last_key = key
+        probes = []
+        for _ in range(6):
+            f = g.command(rng.choice(names))
+            if rng.random() < 0.6 and len(f) > 1:
+                f[1] = key
+            probes.append(f)
+        outs = []
+        for twin in ('expired', 'deleted'):
+            im = I.Impl(ver, seed=1)
+            im.open(1)
+            for f in setup:
+                im.send(1, corr.encode_request(f))
+            if twin == 'deleted':
+                im.clock.frozen = True
+                im.send(1, corr.encode_request([b'del', key]))
+                im.clock.frozen = False
+            im.clock.advance_ms(ttl_ms + 1)
+            rs = []
+            for f in probes:
+                o, crash, _, _ = im.send(1, corr.encode_request(f))
+                rs.append((repr([Cn.canon(Cn.name_of(f), Cn.from_impl(x), None, True) for x in o.get(1, [])]), crash,
+                           repr(I.live_view(im.snapshot_struct()))))
+            outs.append(rs)
+        done += len(probes)
+        res.evaluations += 2 * (len(setup) + len(probes))
+        res.cells.add(('twin', Cn.name_of(probes[0]), key))
+        if outs[0] != outs[1]:
+            i = next(j for j in range(len(probes)) if outs[0][j] != outs[1][j])
+            res.findings.append({'kind': 'twin', 'verdict': 'violation', 'property': 'C07', 'clause': 'expired_eq_deleted', 'version': ver,
+                                 'key': key.hex(), 'setup': [[x.hex() for x in f] for f in setup], 'probes': [[x.hex() for x in f] for f in probes[:i + 1]],
+                                 'expired_twin': outs[0][i], 'deleted_twin': outs[1][i]})
+            return
+
+
+def run_C07(res, tier, seed, t_end, bad):
+    Cp.run_campaign(res, 'C07', plan_ttl(60), budget(tier, 50, 800), seed, None, (), deadline=t_end)
+    Cp.run_campaign(res, 'C07', Cp.plan_multi(['ttl', 'tx', 'str', 'server', 'key', 'list'], 60, churn=False), budget(tier, 15, 200), seed + 3,
+                    None, (), deadline=t_end)
+    if not res.findings:
+        twin_expired_deleted(res, tier, seed, t_end)
+
+
+# ---- C08 -------------------------------------------------------------------------------------
+def wrongtype_matrix(res, tier, seed, t_end):
+    """every (command, stored type) pair: a typed key position holding another type must give an error and change nothing"""
+    rng = random.Random(seed + 8)
+    holders = {'string': b'k0', 'list': b'l0', 'hash': b'h0', 'set': b't0', 'zset': b'z0'}
+    tyname = {'str': 'string', 'list': 'list', 'hash': 'hash', 'set': 'set', 'zset': 'zset'}
+    sigtxt = open(os.path.join(VERIF, 'lean', 'FR', 'Generated', 'Sigs.lean')).read()
+    import re
+    rows = re.findall(r'⟨"(\w+)", \[(.*?)\], \[(.*?)\], (true|false)', sigtxt)
+    for cmd, fixed, rep, _ in rows:
+        if cmd not in gen.TEMPLATES or time.time() > t_end:
+            continue
+        items = [x.strip() for x in re.split(r',\s*(?![^()]*\))', fixed)] if fixed else []
+        pos = next((i for i, x in enumerate(items) if x.startswith('.key (some')), None)
+        if pos is None:
+            continue
+        want = tyname[re.match(r'\.key \(some \.(\w+)\)', items[pos]).group(1)]
+        for have, key in holders.items():
+            if have == want:
+                continue
+            for attempt in range(3):
+                g = gen.Gen(rng)
+                f = g.command(cmd)
+                if len(f) < pos + 2:
+                    continue
+                f[pos + 1] = key
+                s = corr.Session(7, seed, True, (Mn.mon_error_nochange,))
+                s.violations = []
+                try:
+                    s.step(('open', 1))
+                    for sc in gen.SEED_COMMANDS:
+                        s.step(('cmd', 1, sc))
+                    before = s.impl.snapshot_struct()
+                    s.step(('cmd', 1, f))
+                except corr.Divergence as d:
+                    res.findings.append({'kind': 'divergence', 'verdict': 'violation', 'what': d.what, 'version': 7, 'seed': seed,
+                                         'events': [corr.ev_json(('open', 1))] + [corr.ev_json(('cmd', 1, x)) for x in gen.SEED_COMMANDS + [f]],
+                                         'impl': d.impl_side, 'model': d.model_side})
+                    return
+                res.evaluations += 1
+                res.cells.add(('wrongtype', cmd, have))
+                last = s.trace[-1][2].get(1, [])
+                is_err = len(last) == 1 and last[0].startswith('e:')
+                after = s.impl.snapshot_struct()
+                unchanged = I.live_view(before, after['now']) == I.live_view(after, after['now'])
+                if s.violations or not is_err or not unchanged:
+                    # a missing-key short-circuit or an argument error reported first are both fine only if they are errors
+                    res.findings.append({'kind': 'monitor', 'property': 'C08', 'clause': 'wrongtype_matrix', 'version': 7, 'seed': seed,
+                                         'detail': '%r on a key holding a %s: reply %r, state unchanged=%s' % (f, have, last, unchanged),
+                                         'events': [corr.ev_json(('open', 1))] + [corr.ev_json(('cmd', 1, x)) for x in gen.SEED_COMMANDS + [f]]})
+                    return
+                break
+
+
+def run_C08(res, tier, seed, t_end, bad):
+    obs = OBSERVERS['C08']
+    allf = [f for f in gen.FAMILY if f not in ('pubsub',)]
+    Cp.run_campaign(res, 'C08', Cp.plan_single(allf, 60, mutate=0.35), budget(tier, 50, 800), seed, None, obs, deadline=t_end)
+    Cp.run_campaign(res, 'C08', Cp.plan_multi(['tx', 'str', 'list', 'set', 'zset', 'hash', 'server', 'pubsub'], 60, mutate=0.3), budget(tier, 15, 300),
+                    seed + 1, None, obs, deadline=t_end)
+    if not res.findings:
+        wrongtype_matrix(res, tier, seed, t_end)
+
+
+# ---- C09 -------------------------------------------------------------------------------------
+def plan_removal(length):
+    rem = ['lpop', 'rpop', 'ltrim', 'lrem', 'rpoplpush', 'lmove', 'blpop', 'brpop', 'brpoplpush', 'srem', 'spop', 'smove', 'sdiffstore',
+           'sinterstore', 'sunionstore', 'hdel', 'zrem', 'zremrangebyrank', 'zremrangebyscore', 'zremrangebylex', 'zinterstore', 'zunionstore',
+           'del', 'unlink', 'move', 'rename', 'sort', 'expire', 'pexpire', 'restore', 'setrange', 'append', 'set', 'multi', 'exec', 'discard',
+           'select', 'flushdb', 'swapdb', 'pfadd', 'pfmerge', 'getset', 'msetnx', 'lset', 'linsert', 'lpushx', 'rpushx', 'hsetnx', 'sadd',
+           'lpush', 'hset', 'zadd', 'zincrby', 'incr', 'hincrby', 'persist']
+    reads = ['get', 'llen', 'lrange', 'lindex', 'scard', 'smembers', 'sismember', 'hget', 'hgetall', 'hlen', 'zcard', 'zrange', 'zscore',
+             'zrank', 'exists', 'type', 'ttl', 'strlen', 'getrange', 'bitcount', 'getbit', 'sscan', 'hscan', 'zscan', 'scan', 'keys', 'dbsize',
+             'sinter', 'sunion', 'sdiff', 'zcount', 'zrangebyscore', 'mget', 'hmget', 'srandmember', 'randomkey', 'dump', 'pfcount']
+
+    def plan(s, rng):
+        g = Cp.make_gen(s, rng, alias=0.4)
+        yield ('open', 1)
+        small = [[b'rpush', b'l0', b'a'], [b'rpush', b'l1', b'a', b'b'], [b'sadd', b't0', b'a'], [b'sadd', b't1', b'a', b'b'], [b'hset', b'h0', b'f0', b'1'],
+                 [b'zadd', b'z0', b'1', b'a'], [b'zadd', b'z1', b'1', b'a', b'2', b'b'], [b'set', b'k0', b''], [b'set', b'k1', b'1']]
+        for f in small:
+            yield ('cmd', 1, f)
+        for _ in range(length):
+            r = rng.random()
+            if r < 0.05:
+                yield ('adv', rng.choice([1, 1000, 5000]))
+            else:
+                f = g.command(rng.choice(rem if r < 0.7 else reads))
+                if rng.random() < 0.1:
+                    f = g.mutate(f)
+                yield ('cmd', 1, f)
+    return plan
+
+
+# ---- C15 -------------------------------------------------------------------------------------
+def scan_iterations(res, tier, seed, t_end):
+    """complete iterations over unmodified collections: every element exactly once, any COUNT, MATCH / TYPE subsets"""
+    rng = random.Random(seed * 17 + 15)
+    sizes = range(0, 26) if tier == 'thorough' else [0, 1, 2, 3, 7, 10, 11, 25]
+    counts = range(1, 31) if tier == 'thorough' else [1, 2, 3, 7, 10, 11, 30]
+    for n in sizes:
+        for kind in ('scan', 'sscan', 'hscan', 'zscan'):
+            if time.time() > t_end:
+                res.notes.append('scan_iterations: time budget reached')
+                return
+            s = corr.Session(rng.choice([6, 7]), seed)
+            s.violations = []
+            elems = [('e%02d' % i).encode() + bytes([rng.randrange(256)]) * rng.choice([0, 1]) for i in range(n)]
+            rng.shuffle(elems)
+            try:
+                s.step(('open', 1))
+                if kind == 'scan':
+                    for e in elems:
+                        s.step(('cmd', 1, rng.choice([[b'set', e, b'v'], [b'rpush', e, b'x'], [b'sadd', e, b'm']])))
+                elif elems:
+                    s.step(('cmd', 1, {'sscan': [b'sadd', b'c'] + elems, 'hscan': [b'hset', b'c'] + sum([[e, b'v' + e] for e in elems], []),
+                                        'zscan': [b'zadd', b'c'] + sum([[str(i).encode(), e] for i, e in enumerate(elems)], [])}[kind]))
+                for count in counts:
+                    for pat in (None, b'e0*', b'*1?'):
+                        if pat is not None and rng.random() < (0.0 if tier == 'thorough' else 0.6):
+                            continue
+                        cur, pages, calls = b'0', [], 0
+                        while True:
+                            f = [kind.encode()] + ([] if kind == 'scan' else [b'c']) + [cur, b'count', str(count).encode()]
+                            if pat is not None:
+                                f += [b'match', pat]
+                            s.step(('cmd', 1, f))
+                            calls += 1
+                            r = s.impl_last if hasattr(s, 'impl_last') else None
+                            out = s.trace[-1]
+                            raw = s.last_raw
+                            if not (isinstance(raw, list) and len(raw) == 2):
+                                s.violations.append(Mn.Violation('C15', 'scan_shape', repr(raw), s.index))
+                                break
+                            pages.extend(raw[1])
+                            cur = raw[0] if isinstance(raw[0], bytes) else str(raw[0]).encode()
+                            if cur == b'0' or calls > n + 5:
+                                break
+                        if kind in ('hscan', 'zscan'):
+                            got = pages[0::2]
+                        else:
+                            got = pages
+                        import funcs as Fn2
+                        expect = sorted(e for e in elems if pat is None or Fn2.redis_glob(pat, e))
+                        res.cells.add((kind, n, count, pat))
+                        if got != expect or calls != max(1, -(-n // count)):
+                            s.violations.append(Mn.Violation('C15', 'scan_complete', '%s n=%d count=%d match=%r: got %r expected %r in %d calls'
+                                                             % (kind, n, count, pat, got, expect, calls), s.index))
+                        if s.violations:
+                            break
+                    if s.violations:
+                        break
+            except corr.Divergence as d:
+                res.findings.append({'kind': 'divergence', 'verdict': Cp.judge(d, PROPS['C15']['scope']), 'what': d.what, 'version': s.version,
+                                     'seed': seed, 'events': [corr.ev_json(t[1]) for t in s.trace], 'impl': d.impl_side, 'model': d.model_side})
+                return
+            res.absorb(s)
+            if s.violations:
+                v = s.violations[0]
+                res.findings.append({'kind': 'monitor', 'property': 'C15', 'clause': v.clause, 'detail': v.detail, 'version': s.version,
+                                     'seed': seed, 'events': [corr.ev_json(t[1]) for t in s.trace]})
+                return
+    if tier == 'thorough':
+        res.exhaustive = True
+        res.notes.append('exhaustive: sizes 0..25 x COUNT 1..30 x {no pattern, 2 patterns} x 4 scan commands')
+
+
+def run_C15(res, tier, seed, t_end, bad):
+    scan_iterations(res, tier, seed, t_end)
+    if not res.findings:
+        Cp.run_campaign(res, 'C15', Cp.plan_single(['scan', 'set', 'hash', 'zset', 'str'], 50, mutate=0.25), budget(tier, 30, 400), seed,
+                        PROPS['C15']['scope'], deadline=t_end)
+
+
+# ---- C17 (protocol level; the redis-py client level is in clientlevel.py) ------------------------
+def binary_roundtrip(res, tier, seed, t_end):
+    rng = random.Random(seed * 3 + 17)
+    for i in range(budget(tier, 40, 600)):
+        if time.time() > t_end:
+            break
+        s = corr.Session(rng.choice([6, 7]), seed)
+        s.violations = []
+
+        def blob():
+            k = rng.random()
+            if k < 0.1:
+                return b''
+            if k < 0.2:
+                return bytes(range(256))
+            if k < 0.25 and tier == 'thorough':
+                return bytes(rng.randrange(256) for _ in range(100000))
+            return bytes(rng.choice([rng.randrange(256), 0, 13, 10, 255, 36, 42]) for _ in range(rng.randint(1, 12)))
+        key, val, fld, mem, ch, msg = blob() or b'k', blob(), blob(), blob(), blob(), blob()
+        script = [
+            ([b'set', key, val], None), ([b'get', key], val), ([b'append', key, mem], None), ([b'get', key], val + mem),
+            ([b'del', key], None),
+            ([b'hset', key, fld, val], None), ([b'hget', key, fld], val), ([b'hgetall', key], [fld, val]), ([b'del', key], None),
+            ([b'rpush', key, val, mem], None), ([b'lrange', key, b'0', b'-1'], [val, mem]), ([b'del', key], None),
+            ([b'sadd', key, mem], None), ([b'smembers', key], [mem]), ([b'del', key], None),
+            ([b'zadd', key, b'1', mem], None), ([b'zrange', key, b'0', b'-1'], [mem]), ([b'del', key], None),
+            ([b'multi'], None), ([b'set', key, val], None), ([b'get', key], None), ([b'exec'], [b'OK', val]),
+            ([b'keys', b'*'], [key]), ([b'echo', val], val),
+        ]
+        try:
+            s.step(('open', 1)); s.step(('open', 2))
+            for f, expect in script:
+                s.step(('cmd', 1, f))
+                if expect is not None and s.last_raw != expect:
+                    s.violations.append(Mn.Violation('C17', 'stored_bytes_unchanged', '%r returned %r expected %r' % (f, s.last_raw, expect), s.index))
+            s.step(('cmd', 2, [b'subscribe', ch]))
+            s.step(('cmd', 1, [b'publish', ch, msg]))
+            got = s.last_out.get(2, [])
+            if got != [[b'message', ch, msg]]:
+                s.violations.append(Mn.Violation('C17', 'stored_bytes_unchanged', 'published %r/%r, subscriber got %r' % (ch, msg, got), s.index))
+        except corr.Divergence as d:
+            res.findings.append({'kind': 'divergence', 'verdict': 'violation', 'what': d.what, 'version': s.version, 'seed': seed,
+                                 'events': [corr.ev_json(t[1]) for t in s.trace], 'impl': d.impl_side, 'model': d.model_side})
+            return
+        res.absorb(s)
+        res.cells.add(('binary', len(val) > 300, len(key) == 256, val == b''))
+        if s.violations:
+            v = s.violations[0]
+            res.findings.append({'kind': 'monitor', 'property': 'C17', 'clause': v.clause, 'detail': v.detail, 'version': s.version, 'seed': seed,
+                                 'events': [corr.ev_json(t[1]) for t in s.trace]})
+            return
+
+
+def run_C17(res, tier, seed, t_end, bad):
+    binary_roundtrip(res, tier, seed, t_end)
+    if not res.findings:
+        parser_function_level(res, tier, seed)
+    if not res.findings:
+        Cp.run_campaign(res, 'C17', Cp.plan_chunked(['str', 'list', 'hash', 'set', 'tx']), budget(tier, 40, 600), seed, None, (), deadline=t_end)
+    if not res.findings:
+        try:
+            import clientlevel
+            clientlevel.run_C17(res, tier, seed, t_end)
+        except ImportError:
+            res.notes.append('client-level part not available')
+
+
+# ---- C18 -------------------------------------------------------------------------------------
+def run_C18(res, tier, seed, t_end, bad):
+    rng = random.Random(seed * 5 + 18)
+    m = corr.get_model(7)
+    ranges = {'int': (-2 ** 63, 2 ** 63 - 1), 'dbindex': (0, 15), 'bitoffset': (0, 2 ** 32 - 1), 'bitvalue': (0, 1), 'timeout': (0, 2 ** 63 - 1)}
+    cands = list(Fn.INT_CANDIDATES)
+    for _ in range(budget(tier, 300, 5000)):
+        n = rng.choice([rng.randint(-20, 20), rng.randint(-2 ** 64, 2 ** 64), 2 ** 63 + rng.randint(-3, 3), -2 ** 63 + rng.randint(-3, 3),
+                        2 ** 32 + rng.randint(-3, 3)])
+        v = str(n).encode()
+        cands.append(rng.choice([v, b'+' + v, b'0' + v, v + b' ', b' ' + v, v[:1] + b'_' + v[1:], v + b'.0', v.replace(b'-', b'--')]))
+        cands.append(bytes(rng.choice(b'0123456789-+ _.eE') for _ in range(rng.randint(0, 6))))
+    for kind, (lo, hi) in ranges.items():
+        for v in cands:
+            a, b = Fn.py_conv(kind, v), Fn.model_conv(m, kind, v)
+            res.evaluations += 1
+            spec = Fn.int_spec(v, lo, hi)
+            res.cells.add((kind, a[0], len(v) > 18, spec is not None))
+            if (a[0] == 'ok') != (spec is not None) or (a[0] == 'ok' and int(a[1]) != spec):
+                res.findings.append({'kind': 'conv', 'verdict': 'violation', 'converter': kind, 'value': v.hex(), 'impl': a,
+                                     'spec': spec, 'what': 'accepted/refused differently from canonical-decimal-in-range'})
+                return
+            if a != b:
+                res.findings.append({'kind': 'conv', 'verdict': 'unconstrained', 'converter': kind, 'value': v.hex(), 'impl': a, 'model': b,
+                                     'what': 'correspondence:C18:' + kind})
+                return
+    # float converters
+    fl = []
+    for base in Fn.FLOAT_BASE:
+        for d in Fn.DECORATE:
+            fl.append(d(base))
+    for _ in range(budget(tier, 500, 20000)):
+        k = rng.random()
+        if k < 0.4:
+            fl.append(repr(struct_unpack(rng.getrandbits(64))).encode())
+        elif k < 0.7:
+            fl.append(('%s%d.%de%d' % (rng.choice(['', '-', '+']), rng.randint(0, 10 ** rng.randint(0, 25)), rng.randint(0, 10 ** rng.randint(0, 20)),
+                                       rng.randint(-340, 320))).encode())
+        else:
+            fl.append(bytes(rng.choice(b'0123456789.eE+-_ infINFxa\x00') for _ in range(rng.randint(0, 7))))
+    for kind in ('float', 'sortfloat', 'score'):
+        for v in fl:
+            a, b = Fn.py_conv(kind, v), Fn.model_conv(m, kind, v)
+            res.evaluations += 1
+            res.cells.add((kind, a[0], b'e' in v.lower(), b'.' in v, len(v) > 20))
+            if kind == 'float' and a[0] == 'ok':
+                bits = int(a[1])
+                if Fn.nan_bits(bits) or not Fn.STRTOD_DEC.match(v):
+                    res.findings.append({'kind': 'conv', 'verdict': 'violation', 'converter': kind, 'value': v.hex(), 'impl': a,
+                                         'what': 'accepted a string that strtod would not consume completely as a non-NaN number'})
+                    return
+            if a != b:
+                res.findings.append({'kind': 'conv', 'verdict': 'violation' if a[0] != b[0] else 'unconstrained', 'converter': kind,
+                                     'value': v.hex(), 'impl': a, 'model': b, 'what': 'correspondence:C18:' + kind})
+                return
+    # the binary64 codec against CPython: formatting, addition, multiplication
+    import struct as _st
+    ds = list(Fn.random_doubles(rng, budget(tier, 1500, 40000)))
+    for bits in ds:
+        x = _st.unpack('>d', _st.pack('>Q', bits))[0]
+        if x != x:
+            continue
+        for kind, want in (('enc6g', I.C.Float.encode(x, False)), ('enc6f', I.C.Float.encode(x, True)),
+                           ('enc7g', I.C.Float.encode(0 + x, False))):
+            got = bytes.fromhex(m.ask('fmt %s %d' % (kind, bits))[2:])
+            res.evaluations += 1
+            if got != want:
+                res.findings.append({'kind': 'codec', 'verdict': 'unconstrained', 'bits': bits, 'format': kind, 'impl': want.hex(), 'model': got.hex(),
+                                     'what': 'correspondence:C18:float-format'})
+                return
+        # ZADD/ZSCORE round trip of the property: the 17 significant digits read back as the same double
+        if x not in (float('inf'), float('-inf')) and float(I.C.Float.encode(x, False)) != x:
+            res.findings.append({'kind': 'codec', 'verdict': 'violation', 'bits': bits, 'what': 'score does not round-trip through Float.encode/decode'})
+            return
+    for _ in range(budget(tier, 1500, 40000)):
+        a, b = rng.choice(ds), rng.choice(ds)
+        x, y = (_st.unpack('>d', _st.pack('>Q', t))[0] for t in (a, b))
+        if x != x or y != y:
+            continue
+        for op, val in (('add', x + y), ('mul', x * y)):
+            got = int(m.ask('arith %s %d %d' % (op, a, b))[2:])
+            res.evaluations += 1
+            if val != val:
+                ok = Fn.nan_bits(got)
+            else:
+                ok = got == I.dbl_bits(val)
+            if not ok:
+                res.findings.append({'kind': 'codec', 'verdict': 'unconstrained', 'op': op, 'a': a, 'b': b, 'impl': I.dbl_bits(val), 'model': got,
+                                     'what': 'correspondence:C18:float-arith'})
+                return
+    res.samples.append({'converter': 'int', 'value': '007', 'impl': Fn.py_conv('int', b'007')})
+    # through the commands: INCR overflow, INCRBYFLOAT non-finite, ZADD/ZSCORE
+    Cp.run_campaign(res, 'C18', Cp.plan_single(['str', 'zset', 'hash'], 50, mutate=0.1), budget(tier, 25, 300), seed, None, (), deadline=t_end)
+
+
+def struct_unpack(bits):
+    import struct as _st
+    return _st.unpack('>d', _st.pack('>Q', bits))[0]
+
+
+RUNNERS = {
+    'C01': generic('C01', Cp.plan_single(['str', 'key', 'ttl'], 60, select=0.03), Cp.plan_single(['str', 'key', 'ttl'], 80, select=0.03), 60, 1200),
+    'C02': generic('C02', Cp.plan_single(['list', 'hash', 'set', 'sort', 'key'], 60), Cp.plan_single(['list', 'hash', 'set', 'sort', 'key'], 80), 60, 1200),
+    'C03': generic('C03', Cp.plan_single(['zset', 'zset', 'set', 'key'], 60), Cp.plan_single(['zset', 'zset', 'set', 'key'], 80), 60, 1200, OBSERVERS['C03']),
+    'C04': run_C04,
+    'C05': generic('C05', Cp.plan_multi(['tx', 'str', 'list', 'set', 'server', 'key', 'ttl', 'zset'], 70, weights=[5, 2, 2, 1, 1, 1, 1, 1]),
+                   Cp.plan_multi(['tx', 'str', 'list', 'set', 'server', 'key', 'ttl', 'zset'], 90, weights=[5, 2, 2, 1, 1, 1, 1, 1]), 40, 800),
+    'C06': generic('C06', Cp.plan_multi(['tx', 'str', 'list', 'set', 'hash', 'zset', 'server', 'key'], 70, churn=False, weights=[6, 2, 2, 2, 1, 1, 2, 2]),
+                   Cp.plan_multi(['tx', 'str', 'list', 'set', 'hash', 'zset', 'server', 'key', 'ttl'], 90, churn=True, weights=[6, 2, 2, 2, 1, 1, 2, 2, 1]),
+                   40, 800, OBSERVERS['C06']),
+    'C07': run_C07,
+    'C08': run_C08,
+    'C09': generic('C09', plan_removal(60), plan_removal(90), 30, 500, OBSERVERS['C09']),
+    'C10': generic('C10', Cp.plan_multi(['pubsub', 'pubsub', 'tx', 'str', 'server'], 70, nconn=(2, 3, 4)),
+                   Cp.plan_multi(['pubsub', 'pubsub', 'tx', 'str', 'server'], 90, nconn=(2, 3, 4)), 40, 800, OBSERVERS['C10']),
+    'C13': generic('C13', Cp.plan_multi(['server', 'str', 'key', 'list', 'ttl', 'tx'], 70, churn=False, weights=[4, 2, 2, 1, 1, 1]),
+                   Cp.plan_multi(['server', 'str', 'key', 'list', 'ttl', 'tx', 'set'], 90, weights=[4, 2, 2, 1, 1, 1, 1]), 40, 800, OBSERVERS['C13']),
+    'C15': run_C15,
+    'C16': run_C16,
+    'C17': run_C17,
+    'C18': run_C18,
+}
 
 
 def replay(prop, path):
@@ -161,5 +676,3 @@ def replay(prop, path):
         return 1 if bad else 0
     return 0
 
-
-OBSERVERS = {}
